@@ -57,6 +57,8 @@ class Facts:
             if b.get("impl_self") and b["kind"] == "AssocFn":
                 self.by_self.setdefault((b["impl_self"], b["name"]), []).append(b)
         self.tree_hash = raw.get("tree_hash")
+        from . import decide
+        decide.note_externals(self)
 
     # ---- lookups -------------------------------------------------------
     def fn(self, self_ty, name, trait=None):
@@ -333,6 +335,19 @@ def simplify(n):
     if out.get("k") == "block" and not out.get("stmts") and isinstance(out.get("expr"), dict) \
             and out["expr"].get("k") == "fmt":
         return out["expr"]
+    # it.skip(k).next() is it.nth(k)
+    if out.get("k") == "mcall" and out.get("m") == "next" and not out.get("args") and \
+            isinstance(out.get("recv"), dict) and out["recv"].get("k") == "mcall" and out["recv"].get("m") == "skip" \
+            and len(out["recv"].get("args") or []) == 1:
+        sk = out["recv"]
+        y = dict(out)
+        y["m"] = "nth"
+        y["recv"] = sk["recv"]
+        y["args"] = sk["args"]
+        for key in ("f", "inst"):
+            if isinstance(y.get(key), str):
+                y[key] = y[key].replace("::next", "::nth")
+        return y
     if out.get("k") == "match":
         c = _cmp_match(out)
         if c is not None:
